@@ -103,7 +103,7 @@ def run(module, cfg_text, *, workers=16, simulate=None, depth=None, seed=None, c
     cfg_path = os.path.join(wd, module + ".cfg")
     with open(cfg_path, "w") as fh:
         fh.write(cfg_text)
-    cmd = ["java", "-XX:+UseParallelGC", "-Xmx" + heap]
+    cmd = ["java", "-XX:+UseParallelGC", "-XX:ParallelGCThreads=%d" % max(2, min(8, workers)), "-Xss64m", "-Xmx" + heap]
     if dfs:
         cmd.append("-Dtlc2.tool.queue.IStateQueue=StateDeque")
     cmd += ["-cp", JAR + ":" + DEPS, "tlc2.TLC", "-workers", str(workers),
